@@ -759,11 +759,25 @@ where
             // The repetition begins and ends with a separator.
             //
             // For example, `</foo/bar/:1,>`.
-            StartEnd((left, _), (right, _)) if left.boundary().and(right.boundary()).is_some() => {
+            StartEnd((left, _), (right, _))
+                if has_starting_boundary(Some(left)) && has_ending_boundary(Some(right)) =>
+            {
                 Err(CorrelatedError::new(
                     RuleErrorKind::AdjacentBoundary,
                     Some(left),
                     right,
+                ))
+            },
+            // The repetition is a singular branch that begins and ends with a separator.
+            //
+            // For example, `<{/}:1,>` or `<{/foo,bar/}:1,>`.
+            Only((token, None))
+                if has_starting_boundary(Some(token)) && has_ending_boundary(Some(token)) =>
+            {
+                Err(CorrelatedError::new(
+                    RuleErrorKind::AdjacentBoundary,
+                    None,
+                    token,
                 ))
             },
             // The repetition is a singular separator.
